@@ -2,7 +2,8 @@ PROP = {
     "id": "C33",
     "coq_targets": ["Properties/C33.vo", "Extract/C33Extract.vo"],
     "properties_file": "Properties/C33.v",
-    "theorems": ["C33_no_panic", "C33_hellos_after_up", "C33_quiet_otherwise", "C33_hello_output"],
+    "theorems": ["C33_no_panic", "C33_hellos_after_up", "C33_quiet_otherwise", "C33_hello_output",
+                 "C33_sender_lock_under_update_blocks"],
     "allowed_axioms": [],
     "harness": "c33",
     "modelrun": {"name": "c33", "extracted": ["c33_model"], "driver": "ocaml/c33/c33_run.ml"},
@@ -10,7 +11,8 @@ PROP = {
     "search_cases": 1500,
     "rule": "every run sweeps ALL up/down sequences of length <= 6 on one active and on one passive interface "
             "(2 x 127) and all sequences of length <= 4 (quick) / <= 6 (thorough) over {up,down} x {active if, passive if} "
-            "on a server with both, then random sequences (length <= 12, all seven oper states, 1-2 interfaces of "
+            "on a server with both, all sequences of length <= 4 (thorough: 5) in which the hello ticker fires / a neighbor frame arrives WHILE an update is "
+            "being processed (device double whose GetOperState callback runs under the interface lock), then random sequences (length <= 12, 20% of the events with such a concurrent tick/frame, all seven oper states, 1-2 interfaces of "
             "either kind); a case is non-trivial when some link comes back up after having been up and down; "
             "distinct = distinct inputs",
     "trusted_base": [
